@@ -1,9 +1,11 @@
 (** Correspondence evaluator for C04: observations of benchunit.Tidy, the
-    reader's Values, UnitMetadataMap.Get and [.unit] filters on generated
-    (unit, value) pairs, compared with the model (corr_ok) and checked against
-    the tokenwise-rewrite specification (prop_ok). *)
+    reader's Values, UnitMetadataMap.Get/GetBetter/GetAssumption, [.unit]
+    filters and benchstat's tables on generated (unit, value) pairs, compared
+    bit for bit with the model (corr_ok) and checked against the DECLARATIVE
+    specification Model/UnitsSpec.v (prop_ok: tokenwise rewrite; the value the
+    real product up to rounding, no evaluation order prescribed). *)
 From Perf Require Import Base.Bytes Base.Sx Base.B64 Base.SxF Base.Utf8 Base.UnicodeTables Base.Unicode
-  Model.Units.
+  Model.Units Model.UnitsSpec Model.UnitsMeta.
 
 Definition isp := go_is_space.
 
@@ -19,6 +21,12 @@ Record mobs := mkMobs {
   m_recs : list (Z * option ometa);
   m_gets : list (bytes * option ometa);
 }.
+
+(** "Unit u better=bval assume=aval" read by a fresh Reader; per looked-up
+    unit x: GetBetter(x) on an EMPTY map, GetBetter(x) and
+    GetAssumption(x) == AssumeExact on the reader's map *)
+Definition abentry := (bytes * Z * Z * bool)%type.
+Record abobs := mkAb { ab_bval : bytes; ab_aval : bytes; ab_es : list abentry }.
 
 (** one Reader, one unit table and ONE Filter over a sequence of lines *)
 Inductive sitem :=
@@ -47,6 +55,9 @@ Definition term_match (orc : re_oracle) (t : fterm) (u : bytes) : bool :=
 Definition terms_match (orc : re_oracle) (ts : list fterm) (u : bytes) : bool :=
   existsb (fun t => term_match orc t u) ts.
 
+(** a line of a benchstat input: results, or "Unit u assume=aval" *)
+Inductive titem := TBench (wr : list (bytes * b64)) | TUnit (u aval : bytes).
+
 Inductive case :=
 | KTable (space : list (N * N)) (c_1em9 c_1e6 c_1e9 : b64)
 | KUnit (u : bytes) (v : b64)
@@ -55,6 +66,7 @@ Inductive case :=
         (rd : option (list oval))        (* the reader's Values for "BenchmarkX 1 v u" *)
         (md : option mobs)
         (fl : list (bytes * bool))       (* literal, does .unit:literal keep the value *)
+        (ab : option abobs)              (* GetBetter / GetAssumption *)
 | KSeq (lit : bytes) (items : list sitem) (gets : list (bytes * option (bytes * bytes * bytes)))
 | KSeqF (terms : list fterm) (orc : re_oracle) (items : list sitem)
         (gets : list (bytes * option (bytes * bytes * bytes)))
@@ -66,7 +78,11 @@ Inductive case :=
     [full_late] the values of the retained Result.Clone taken before the filter
     was applied, read at the end *)
 | KLong (lit : bytes) (items items_late : list sitem) (full_late : list (list oval))
-        (gets : list (bytes * option (bytes * bytes * bytes))).
+        (gets : list (bytes * option (bytes * bytes * bytes)))
+(** benchstat's tables built from the results of ONE Reader (table by .config
+    and unit): per table its unit, whether its assumption is AssumeExact, and
+    the number of values in its cells *)
+| KTab (items : list titem) (tables : list (bytes * bool * Z)).
 
 (* not Sx.as_N: it uses Z.to_N, whose extracted name collides with the
    driver's use of Byte.to_N (reported) *)
@@ -98,7 +114,7 @@ Definition decode (s : sx) : option case :=
       do sp <- as_list (as_pair as_Nabs as_Nabs) sp;
       do a <- as_f64 a; do b <- as_f64 b; do c <- as_f64 c;
       Some (KTable sp a b c)
-  | SL [SZ 1; SB u; v; t1; t2; rd; md; fl] =>
+  | SL [SZ 1; SB u; v; t1; t2; rd; md; fl; ab] =>
       do v <- as_f64 v;
       do t1 <- as_fb t1; do t2 <- as_fb t2;
       do rd <- as_opt (as_list as_oval) rd;
@@ -109,7 +125,14 @@ Definition decode (s : sx) : option case :=
                      Some (mkMobs u2 val2 recs gets)
                  | _ => None end) md;
       do fl <- as_list (as_pair as_b as_bool) fl;
-      Some (KUnit u v t1 t2 rd md fl)
+      do ab <- as_opt (fun s => match s with
+                 | SL [SB bval; SB aval; es] =>
+                     do es <- as_list (fun s => match s with
+                                | SL [SB x; SZ b0; SZ b1; ex] => do ex <- as_bool ex; Some (x, b0, b1, ex)
+                                | _ => None end) es;
+                     Some (mkAb bval aval es)
+                 | _ => None end) ab;
+      Some (KUnit u v t1 t2 rd md fl ab)
   | SL [SZ 2; SB lit; items; gets] =>
       do items <- as_list as_sitem items;
       do gets <- as_list (as_pair as_b (as_opt as_ometa)) gets;
@@ -132,6 +155,13 @@ Definition decode (s : sx) : option case :=
       do full_late <- as_list (as_list as_oval) full_late;
       do gets <- as_list (as_pair as_b (as_opt as_ometa)) gets;
       Some (KLong lit items items_late full_late gets)
+  | SL [SZ 6; items; tabs] =>
+      do items <- as_list (fun s => match s with
+          | SL [SZ 0; wr] => do wr <- as_list (as_pair as_b as_f64) wr; Some (TBench wr)
+          | SL [SZ 1; SB u; SB a] => Some (TUnit u a)
+          | _ => None end) items;
+      do tabs <- as_list (as_triple as_b as_bool as_z) tabs;
+      Some (KTab items tabs)
   | _ => None
   end.
 
@@ -144,7 +174,6 @@ Definition ometa_eqb (a b : ometa) : bool :=
   let '(a1, a2, a3) := a in let '(b1, b2, b3) := b in beq a1 b1 && beq a2 b2 && beq a3 b3.
 Definition ometa_of (e : umeta) : ometa := (u_unit e, u_orig e, u_value e).
 
-Definition key_better : bytes := bs "better".
 Definition val_lower : bytes := bs "lower".
 
 (** model of the metadata scenario *)
@@ -214,11 +243,30 @@ Definition re_complete (terms : list fterm) (orc : re_oracle) (items : list site
             end) terms) wr
     | SUnit _ _ _ => true end) items.
 
+(** benchstat tables: [tidyf] maps a written unit to the name of its metric.
+    No two tables carry one unit; every measurement's metric has a table; a
+    table holds exactly the measurements of its metric (written under
+    whichever unit); its assumption is exact iff the first "Unit .. assume="
+    line naming the metric - by its written or its base unit - says so. *)
+Fixpoint nodupb (l : list bytes) : bool :=
+  match l with [] => true | x :: r => negb (existsb (beq x) r) && nodupb r end.
+
+Definition tab_ok (tidyf : bytes -> bytes) (items : list titem) (tables : list (bytes * bool * Z)) : bool :=
+  let meas := flat_map (fun it => match it with TBench wr => map (fun '(u, _) => tidyf u) wr | TUnit _ _ => [] end) items in
+  let ulines := flat_map (fun it => match it with TUnit u a => [(tidyf u, a)] | TBench _ => [] end) items in
+  let tunits := map (fun t => fst (fst t)) tables in
+  nodupb tunits
+  && forallb (fun bu => existsb (beq bu) tunits) meas
+  && forallb (fun '(t, ex, n) =>
+       (0 <? n)%Z && (n =? Z.of_nat (length (filter (beq t) meas)))%Z
+       && Bool.eqb ex (match find (fun l => beq (fst l) t) ulines with
+                       | Some l => beq (snd l) (bs "exact") | None => false end)) tables.
+
 Definition corr_ok (c : case) : bool :=
   match c with
   | KTable sp a b c' =>
       ranges_eqb sp space_ranges && b64_same a f_1em9 && b64_same b f_1e6 && b64_same c' f_1e9
-  | KUnit u v t1 t2 rd md fl =>
+  | KUnit u v t1 t2 rd md fl ab =>
       let m1 := tidy isp v u in
       let rv := read_value isp v u in
       fb_eqb m1 t1
@@ -236,6 +284,17 @@ Definition corr_ok (c : case) : bool :=
          | None => true
          end
       && forallb (fun '(lit, got) => Bool.eqb (unit_match (beq lit) rv) got) fl
+      && match ab with
+         | Some a =>
+             let m := match units_add isp [] u key_better (ab_bval a) with
+                      | UAdded m1 => match units_add isp m1 u key_assume (ab_aval a) with
+                                     | UAdded m2 => m2 | _ => m1 end
+                      | _ => [] end in
+             forallb (fun '(x, b0, b1, ex) =>
+               (b0 =? get_better isp [] x)%Z && (b1 =? get_better isp m x)%Z
+               && Bool.eqb ex (get_assume_exact isp m x)) (ab_es a)
+         | None => true
+         end
   | KSeq lit items gets =>
       seq_ok (fun u => snd (tidy isp b64_one u)) (read_value isp) (beq lit) items gets
   | KSeqF terms orc items gets =>
@@ -248,22 +307,80 @@ Definition corr_ok (c : case) : bool :=
       seq_ok tf (read_value isp) (beq lit) items gets
       && seq_ok tf (read_value isp) (beq lit) items_late gets
       && late_ok (read_value isp) items full_late
+  | KTab items tables => tab_ok (fun u => snd (tidy isp b64_one u)) items tables
   end.
 
-(** the specification on what the implementation was seen to do *)
-Definition prop_ok (c : case) : bool :=
+(** ** the specification on what the implementation was seen to do.
+    Declarative (Model/UnitsSpec.v): the unit is the tokenwise rewrite, the
+    value is the REAL product v * 10^(6 #MB - 9 #ns) up to rounding (no
+    evaluation order prescribed; NaN, zeros and infinities are fixed), the pair
+    as written is kept iff rewritten, a unit with nothing to normalise passes
+    through untouched.  [relax] = the judge of known finding
+    C04_scale_factor_out_of_range (see [known_ok]). *)
+Definition vj (relax : bool) : b64 -> bytes -> b64 -> bool := value_ok isp relax.
+
+Fixpoint reports_ok (relax : bool) (wr : list (bytes * b64)) (got : list oval) : bool :=
+  match wr, got with
+  | [], [] => true
+  | (u, v) :: wr', g :: got' => report_ok isp (vj relax) v u g && reports_ok relax wr' got'
+  | _, _ => false
+  end.
+
+(** one Reader, one unit table, one Filter over a sequence of lines: every
+    measurement of every line is judged on its own - named by the term iff the
+    term names its base or its written unit; the line is kept iff one is; what
+    remains are exactly the named measurements, each reported as [report_ok]
+    demands; the unit table is keyed by the base unit (first value wins, equal
+    value silent, different value an error) *)
+Definition seq_spec_ok (relax : bool) (mt : bytes -> bool) (items : list sitem)
+           (gets : list (bytes * option ometa)) : bool :=
+  let step (st : bool * list umeta) (it : sitem) : bool * list umeta :=
+    let '(ok, m) := st in
+    match it with
+    | SBench wr mb kept after =>
+        let nm := map (fun '(u, _) => named isp mt u) wr in
+        let keptw := filter (fun '(u, _) => named isp mt u) wr in
+        (ok && list_eqb Bool.eqb nm mb
+            && Bool.eqb (existsb (fun b => b) nm) kept
+            && reports_ok relax keptw after, m)
+    | SUnit u va recs =>
+        let tu := spec_unit isp u in
+        match units_find m tu key_better with
+        | Some have =>
+            if beq (u_value have) va then (ok && recs_eqb recs [], m)
+            else (ok && recs_eqb recs [(1%Z, None)], m)
+        | None =>
+            (ok && recs_eqb recs [(0%Z, Some (tu, u, va))], m ++ [mkUmeta tu key_better u va])
+        end
+    end in
+  let '(ok, m) := fold_left step items (true, []) in
+  ok && forallb (fun '(x, got) =>
+          option_eqb ometa_eqb (option_map ometa_of (units_find m (spec_unit isp x) key_better)) got) gets.
+
+(** the retained copies of every result, read after the whole text was scanned *)
+Fixpoint late_spec_ok (relax : bool) (items : list sitem) (late : list (list oval)) : bool :=
+  match items with
+  | [] => match late with [] => true | _ => false end
+  | SUnit _ _ _ :: items' => late_spec_ok relax items' late
+  | SBench wr _ _ _ :: items' =>
+      match late with
+      | l :: late' => reports_ok relax wr l && late_spec_ok relax items' late'
+      | [] => false
+      end
+  end.
+
+Definition prop_gen (relax : bool) (c : case) : bool :=
   match c with
   | KTable _ _ _ _ => true
-  | KUnit u v t1 t2 rd md fl =>
+  | KUnit u v t1 t2 rd md fl ab =>
       let su := spec_unit isp u in
-      let sv := spec_value isp v u in
       (* Tidy rewrites exactly the numerator ns/MB tokens and scales per component *)
-      beq (snd t1) su && b64_same (fst t1) (b64_mul v (spec_factor isp u))
+      beq (snd t1) su && vj relax v u (fst t1)
       (* normalising a normalised measurement changes nothing *)
       && fb_eqb t2 t1
       (* the reader reports the base unit for every value, original kept iff rewritten *)
       && match rd with
-         | Some ovs => list_eqb oval_eqb ovs [oval_of sv]
+         | Some ovs => reports_ok relax [(u, v)] ovs
          | None => true
          end
       (* metadata is found under the written and under the base unit *)
@@ -294,18 +411,32 @@ Definition prop_ok (c : case) : bool :=
          | None => true
          end
       (* .unit:lit keeps the value iff lit names the base or the written unit *)
-      && forallb (fun '(lit, got) => Bool.eqb (beq lit su || beq lit u) got) fl
-  | KSeq lit items gets => seq_ok (spec_unit isp) (spec_value isp) (beq lit) items gets
+      && forallb (fun '(lit, got) => Bool.eqb (named isp (beq lit) u) got) fl
+      (* GetBetter / GetAssumption: the line's metadata applies to every name
+         (written or base) of u's metric and to no other unit; two names of ONE
+         metric get ONE answer, with and without metadata (built-in defaults) *)
+      && match ab with
+         | Some a =>
+             forallb (fun '(x, b0, b1, ex) =>
+               (if beq (spec_unit isp x) su
+                then (b1 =? better_dir (ab_bval a))%Z && Bool.eqb ex (beq (ab_aval a) (bs "exact"))
+                else (b1 =? b0)%Z && negb ex)
+               && forallb (fun '(y, c0, c1, ey) =>
+                    negb (beq (spec_unit isp x) (spec_unit isp y))
+                    || ((b0 =? c0)%Z && (b1 =? c1)%Z && Bool.eqb ex ey)) (ab_es a)) (ab_es a)
+         | None => true
+         end
+  | KSeq lit items gets => seq_spec_ok relax (beq lit) items gets
   (* every measurement judged on its own: kept iff some member of the term
      names its base unit or its written unit *)
-  | KSeqF terms orc items gets => seq_ok (spec_unit isp) (spec_value isp) (terms_match orc terms) items gets
+  | KSeqF terms orc items gets => seq_spec_ok relax (terms_match orc terms) items gets
   (* every call, whatever was tidied before it in the process: exactly the
      numerator ns/MB tokens rewritten, the value scaled per rewritten token; a
-     unit with nothing to rewrite (a base form) comes back unchanged with factor 1 *)
+     unit with nothing to rewrite (a base form) comes back with the value untouched *)
   | KTidySeq calls =>
       forallb (fun '(u, v, t) =>
-        beq (snd t) (spec_unit isp u) && b64_same (fst t) (b64_mul v (spec_factor isp u))
-        && (negb (beq (spec_unit isp u) u) || b64_same (fst t) v || b64_is_nan v)) calls
+        beq (snd t) (spec_unit isp u) && vj relax v u (fst t)
+        && (negb (beq (spec_unit isp u) u) || b64_same (fst t) v)) calls
   (* every measurement of every line, however long the text: reported under
      its base unit with the scaled value, the pair as written kept iff
      rewritten, a unit with nothing to normalise passed through untouched -
@@ -313,13 +444,25 @@ Definition prop_ok (c : case) : bool :=
      the rest of the text has been read (measurements of one metric are never
      split between two unit names) *)
   | KLong lit items items_late full_late gets =>
-      seq_ok (spec_unit isp) (spec_value isp) (beq lit) items gets
-      && seq_ok (spec_unit isp) (spec_value isp) (beq lit) items_late gets
-      && late_ok (spec_value isp) items full_late
+      seq_spec_ok relax (beq lit) items gets
+      && seq_spec_ok relax (beq lit) items_late gets
+      && late_spec_ok relax items full_late
+  (* benchstat tables: measurements of one metric are never split between two
+     unit names, and unit metadata applies whichever name the line used *)
+  | KTab items tables => tab_ok (spec_unit isp) items tables
   end.
+
+Definition prop_ok (c : case) : bool := prop_gen false c.
+
+(** the judge of known finding C04_scale_factor_out_of_range: everything the
+    property demands, except that for a unit whose factor, accumulated as one
+    binary64 number in token order, leaves the normal range (35 or more "ns" /
+    52 or more "MB" numerator components), the reported value may be the
+    product with that degenerate factor (0 * Inf = NaN, finite * Inf = Inf, ...) *)
+Definition known_ok (c : case) : bool := prop_gen true c.
 
 Definition run_case (s : sx) : N :=
   match decode s with
-  | Some c => code_of (corr_ok c) (prop_ok c)
+  | Some c => code_of3 (corr_ok c) (prop_ok c) (known_ok c)
   | None => code_undecodable
   end.
